@@ -496,7 +496,32 @@ func RunCrash(t *tr.W, thorough bool) {
 				}
 			}
 		}
-		// block store ahead of the filter store: the import refuses, no durable step
+		// block store ahead of the filter store by d headers (less than a batch, several batches): the import
+		// first brings the filter store level (divergence region), then appends; killed at every durable step
+		for _, d := range []int{1, 2 * c.bs + 1} {
+			if d > 7 {
+				d = 7
+			}
+			for k := 0; ; k++ {
+				if w.bs == nil || w.fs == nil {
+					break
+				}
+				bTip, fTip := w.tips()
+				if bTip < 0 {
+					break
+				}
+				if bTip == fTip {
+					w.extend(r, bTip+1+d)
+					if err := w.writeBlocksDirect(bTip+1, bTip+d); err != nil {
+						panic(err)
+					}
+				}
+				fired, _, _ := onePoint(t, w, r, "block-ahead", c.bs, c.newCount, k, 0)
+				if !fired {
+					break
+				}
+			}
+		}
 		if w.bs == nil || w.fs == nil {
 			w.close()
 			continue
